@@ -166,7 +166,8 @@ impl Op {
                     "resolve",
                     vec![("name", name.clone()), ("branch", "userop".to_string())],
                 );
-                return constructor.0(&parameters, ctx)?.handle_op_inversion();
+                let inverted = Self::modifier_given(&parameters.definition, "inv");
+                return constructor.0(&parameters, ctx)?.handle_op_inversion(inverted);
             }
         }
         // A user defined macro?
@@ -211,7 +212,8 @@ impl Op {
                 "resolve",
                 vec![("name", name.clone()), ("branch", "builtin".to_string())],
             );
-            return constructor.0(&parameters, ctx)?.handle_op_inversion();
+            let inverted = Self::modifier_given(&parameters.definition, "inv");
+            return constructor.0(&parameters, ctx)?.handle_op_inversion(inverted);
         }
 
         #[cfg(geodesy_verif)]
@@ -225,8 +227,20 @@ impl Op {
         ))
     }
 
-    fn handle_op_inversion(self) -> Result<Op, Error> {
-        let inverted = self.params.boolean("inv");
+    // `inv` is a modifier of the step, valid for every operator, whether or not
+    // the gamut of the operator lists the flag (the gamuts of the operators without
+    // an inverse typically do not): Like for macros, it is looked up among the
+    // tokenized parameters of the step. An operator without an inverse must refuse
+    // `inv`, not silently ignore it.
+    fn modifier_given(definition: &str, key: &str) -> bool {
+        definition
+            .split_into_parameters()
+            .get(key)
+            .is_some_and(|v| v.is_empty() || v.to_lowercase() == "true")
+    }
+
+    fn handle_op_inversion(self, given: bool) -> Result<Op, Error> {
+        let inverted = given || self.params.boolean("inv");
         self.handle_inversion(inverted)
     }
 
